@@ -11,6 +11,7 @@
 package main
 
 import (
+	"bytes"
 	"context"
 	"fmt"
 	"math"
@@ -458,6 +459,10 @@ func scenarios(o *h.Opts, rnd *h.Rand) []*scen {
 		s.oracleOnly(e, "8 clients x 400 pipelined (Write attribute, Read) on one node", srvx.Result{Class: "done"})
 	})
 
+	// ---- a subscription whose publish loop is stalled by its own non-reading connection, then value
+	// changes of the monitored node written over another connection
+	add("stalled-subscription", srvx.ChildSpec{}, func(s *scen, e *srvx.Episode) { s.stalledSubscription(e) })
+
 	// ---- channel level
 	add("signed-chunks", srvx.ChildSpec{}, func(s *scen, e *srvx.Episode) {
 		for _, n := range []int{12, 16, 17, 24, 31, 32, 40, 100} {
@@ -515,6 +520,79 @@ func (s *scen) signedChunk(e *srvx.Episode, n int) {
 	}
 	s.ex = append(s.ex, x)
 	ch.Conn.Close()
+}
+
+// stalledSubscription: connection A creates a subscription with one monitored item on a node
+// holding a large value, sends PublishRequests and never reads; connection B (which reads) keeps
+// writing the node.  The subscription goroutine ends up blocked sending to A; does B still get answers?
+func (s *scen) stalledSubscription(e *srvx.Episode) {
+	e.Cast()
+	tok := e.Valid.Tok
+	a, err := srvx.OpenRawNone(context.Background(), e.Child.URL)
+	if err != nil {
+		e.Infra = "raw channel: " + err.Error()
+		return
+	}
+	defer a.Close()
+	big := func(i int) *ua.WriteRequest {
+		b := bytes.Repeat([]byte{byte(i)}, 1<<20)
+		return srvx.WriteAttrReq(srvx.TestBigVar(), ua.AttributeIDValue, &ua.DataValue{EncodingMask: ua.DataValueValue, Value: ua.MustVariant(b)})
+	}
+	if r := e.ChA.Do(big(0), tok, 10*time.Second); r.Class != "ok" {
+		e.Infra = "initial write: " + r.String()
+		return
+	}
+	a.Send(srvx.CreateSubReq(5, 1000000, 1000000), tok, 5*time.Second)
+	resp, err := a.Recv(10 * time.Second)
+	cs, ok := resp.(*ua.CreateSubscriptionResponse)
+	if err != nil || !ok {
+		e.Infra = fmt.Sprintf("CreateSubscription over the raw channel: %T %v", resp, err)
+		return
+	}
+	a.Send(srvx.CreateItemsReq(cs.SubscriptionID, 1, srvx.TestBigVar()), tok, 5*time.Second)
+	if _, err := a.Recv(10 * time.Second); err != nil {
+		e.Infra = "CreateMonitoredItems over the raw channel: " + err.Error()
+		return
+	}
+	// from here on A never reads
+	written, blockedAt := 0, -1
+	var last srvx.Result
+	for i := 1; i <= 400; i++ {
+		if i%2 == 1 {
+			for k := 0; k < 4; k++ {
+				a.Send(srvx.PublishReq(), tok, 2*time.Second) // keeps the publish queue filled; errors (socket full) do not matter
+			}
+		}
+		last = e.ChA.Do(big(i), tok, 10*time.Second)
+		if last.Class != "ok" {
+			blockedAt = i
+			break
+		}
+		written++
+	}
+	x := extra{Case: fmt.Sprintf("subscription stalled by its non-reading connection, %d writes of the monitored node answered", written), Impl: "served"}
+	if blockedAt > 0 {
+		x.Impl = "blocked"
+		// is it the dispatcher (everybody) and does it survive the departure of connection A?
+		_, c1 := srvx.Canary(e.Child.URL, canaryBound)
+		a.Close()
+		time.Sleep(2 * time.Second)
+		d2, c2 := srvx.Canary(e.Child.URL, canaryBound)
+		x.Bad = true
+		x.Sig = "C29.notifychannel-send-under-mutex-blocks-dispatcher"
+		x.Detail = fmt.Sprintf("write #%d of the monitored node got %q; canary while the stalled connection is open: err=%v; after it was closed: %v err=%v", blockedAt, last.String(), c1, d2.Round(time.Millisecond), c2)
+		if c1 == nil {
+			x.Sig = "" // only the writer is stuck: something else
+		}
+		if e.Child.Exited() {
+			site, msg := e.Child.CrashSite()
+			x.Sig, x.Detail = "", x.Detail+fmt.Sprintf(" — the process died in %s [%s]", site, msg)
+			e.Dead = true
+		}
+		e.Infra = ""
+		e.NoChannel = true // no end-of-scenario canary: the verdict is above
+	}
+	s.ex = append(s.ex, x)
 }
 
 // nonReading: a client sends requests and never reads the answers.
